@@ -24,6 +24,7 @@ RULE = ('reference-encoded images of each format that has both reader '
         'non-trivial = both readers accepted; distinct = digest of the spec.')
 RULE += (' Also: images whose header carries nz=0, readers called without a shape, a gridded decoy file with the species in another order read first.')
 RULE += (' For the formats whose size does not tell steps from layers (height/pressure, one-3D family) the path holds, just before, another valid file of the same grid, start and size with steps and layers exchanged, read by both readers.')
+RULE += (' One file in eight ends exactly at midnight (1 to 24 hourly or 3-hourly steps), its end stamped on the next date at hour 0 or, in the hour-24 convention, on the same date.')
 ASSUMPTIONS = [
     'termination is decided on logical steps: more than 2,000,000 backward '
     'jumps inside the library for an image of at most a few kilobytes is '
@@ -67,6 +68,17 @@ def gen(rng, idx, tier, seed):
     elif spec['fmt'] != 'wind' and rng.random() < 0.2:
         # meteorological readers called without the grid shape
         spec['noshape'] = True
+    r2 = np.random.default_rng([spec['seed'], 131])
+    if spec['fmt'] != 'landuse' and r2.random() < 0.12:
+        # a file that ends exactly at midnight (a model day, or the last
+        # hours of one): its end is stamped on the next date, hour 0, or - in
+        # the hour-24 convention - on the same date
+        spec['dhour'] = int(r2.choice([1, 1, 3]))
+        spec['nt'] = int(r2.choice([1, 2, 3, 6, 24 // spec['dhour']]))
+        spec['shour'] = 24 - spec['nt'] * spec['dhour']
+        spec['sdate'] = int(r2.choice([2005185, 2024059, 2023364, 2001001]))
+        if r2.random() < 0.4:
+            spec['eod24'] = True
     return spec
 
 
